@@ -75,8 +75,8 @@ def run(ctx, widen=False):
             b = round(rng.uniform(-3, 3), 2)
             bounds = (b, b)
         else:
-            lo = round(rng.uniform(-6, 2), 2)
-            bounds = (lo, round(lo + rng.uniform(0.1, 8), 2))
+            lo = rng.choice([round(rng.uniform(-6, 2), 2), 0.0, -2.0])
+            bounds = (lo, rng.choice([round(lo + rng.uniform(0.1, 8), 2), 0.0 if lo < 0 else lo + 1.0]))
         r = rng.random()
         if bounds is None:
             x0 = round(rng.uniform(-5, 5), 3)
@@ -135,15 +135,16 @@ def run(ctx, widen=False):
         if clamp or status != "ok" or (bounds and x0 in bounds):
             ctx.nontrivial((name, x0, bounds, lr, max_iter))
         if name in ("quad", "shifted", "linear", "flat") and len(lines) < ctx.n(300, 3000):
-            lines.append(f"graddesc {name} {fhex(x0)} {'_' if bounds is None else fhex(bounds[0])} {'_' if bounds is None else fhex(bounds[1])} {fhex(lr)} {max_iter} {fhex(tol)} {fhex(mom)}")
+            lines.append(f"graddesc {name} {fhex(x0)} {'_' if bounds is None else fhex(bounds[0])} {'_' if bounds is None else fhex(bounds[1])} {fhex(lr)} {max_iter} {fhex(tol)} {fhex(mom)} {fhex(1e-8)}")
             expect.append((inp, status, None if out is None else [fhex(v) for v in out["x_history"]], None if out is None else fhex(out["optimal_value"]), None if out is None else fhex(out["minimum_cost"])))
         if i % 150 == 0:
             ctx.sample({"input": inp, "status": status, "history_len": None if out is None else len(out["x_history"])})
     # minimize(): result class and invariants
-    for i in range(ctx.n(25, 400)):
-        expr = rng.choice(["(x - 2)**2 + 1", "x**2 + 3*x", "x**4 - 2*x**2", "(x + 1)**2"])
-        lo = round(rng.uniform(-4, 1), 1)
-        bounds = rng.choice([(lo, lo + 4.0), (None, lo + 3.0), (lo, None)])
+    for i in range(ctx.n(60, 800)):
+        expr = rng.choice(["(x - 2)**2 + 1", "x**2 + 3*x", "x**4 - 2*x**2", "(x + 1)**2", "(x - 7)**2", "(x + 6)**2"])
+        lo = rng.choice([round(rng.uniform(-4, 1), 1), 0, 0.0, -1, 1])      # boundary values incl. a bound exactly 0
+        hi = rng.choice([lo + 4.0, 0 if lo < 0 else lo + 2, lo + 0.5])
+        bounds = rng.choice([(lo, hi), (None, hi), (lo, None)])
         lo_f = -math.inf if bounds[0] is None else bounds[0]
         hi_f = math.inf if bounds[1] is None else bounds[1]
         x0 = rng.choice([max(lo_f, min(hi_f, 0.5)), (lo_f if lo_f > -math.inf else hi_f), (hi_f + 1.0 if hi_f < math.inf else lo_f - 1.0)])
@@ -184,7 +185,7 @@ def run(ctx, widen=False):
             if r[0] == "bad-request":
                 ctx.notes.append("model graddesc command missing")
                 break
-            mstatus = r[0] if r[0] != "ok" else "ok"
+            mstatus = r[0]
             if mstatus != status:
                 ctx.disagreement("gradient_descent vs gradDescent (outcome)", inp, mstatus, status)
                 continue
